@@ -1,4 +1,106 @@
-import BipVerif.Model.Base58
+/-
+C11 — binary-to-text and wire codecs are exact inverses on their whole domain.
+Property theorems only; the proofs live in `BipVerif/Lemmas/*`.
+-/
+import BipVerif.Lemmas.Base58
+import BipVerif.Lemmas.ConvertBits
+import BipVerif.Lemmas.IntBytes
+import BipVerif.Lemmas.Base58Check
+import BipVerif.Lemmas.Base58Xmr
+import BipVerif.Lemmas.SS58
+import BipVerif.Lemmas.Scale
+import BipVerif.Lemmas.Base32
+
 namespace BipVerif.Props.C11
-theorem placeholder : True := trivial
+open BipVerif BipVerif.Model
+
+/-- Base58, any 58-symbol alphabet without repetitions (Bitcoin and Ripple below):
+`decode (encode b) = b` for every byte string, including empty and leading-zero ones. -/
+theorem base58_decode_encode (alph : List Char) (hn : alph.Nodup) (hl : alph.length = 58) (b : Bytes) :
+    b58Decode alph (b58Encode alph b) = .ok b :=
+  b58_decode_encode alph hn hl b
+
+theorem base58_btc_decode_encode (b : Bytes) : b58Decode btcAlphabet (b58Encode btcAlphabet b) = .ok b :=
+  b58_decode_encode btcAlphabet (by decide) (by decide) b
+
+theorem base58_xrp_decode_encode (b : Bytes) : b58Decode xrpAlphabet (b58Encode xrpAlphabet b) = .ok b :=
+  b58_decode_encode xrpAlphabet (by decide) (by decide) b
+
+/-- Bech32 8→5→8 bit regrouping is the identity on every byte string. -/
+theorem bech32_regroup_roundtrip (b : Bytes) :
+    (toBase32 (bytesToNats b) >>= fromBase32) = .ok (bytesToNats b) :=
+  convertBits_8_5_8 b
+
+/-- `ConvertBits` with padding *is* MSB-first bit regrouping (the standard definition). -/
+theorem convertBits_is_regroup (f t : Nat) (ht : 0 < t) (data : List Nat) (h : ∀ v ∈ data, v < 2 ^ f) :
+    convertBits data f t true = some (regroup f t data) :=
+  convertBits_pad f t ht data h
+
+/-- without padding it succeeds exactly when the leftover bits are fewer than `f` and all zero. -/
+theorem convertBits_nopad_strict (f t : Nat) (ht : 0 < t) (data : List Nat) (h : ∀ v ∈ data, v < 2 ^ f) :
+    convertBits data f t false =
+      if (f * data.length) % t ≥ f ∨ ∃ b ∈ chunkRem t (symbolBits f data), b = true then none
+      else some ((fullChunks t (symbolBits f data)).map ofBitsBE) :=
+  convertBits_nopad f t ht data h
+
+/-- the encoded text *is* the standard encoding: Base58 has no second spelling of a byte string —
+every accepted string is the encoding of its decoding (so `encode` is the unique standard form). -/
+theorem base58_encode_decode (alph : List Char) (hn : alph.Nodup) (hl : alph.length = 58) (s : List Char)
+    (b : Bytes) (h : b58Decode alph s = .ok b) : b58Encode alph b = s :=
+  b58_encode_decode alph hn hl s b h
+
+/-- Base58Check, any checksum hash of at least 4 bytes (double SHA-256 in the library). -/
+theorem base58check_decode_encode (H : Bytes → Bytes) (hH : ∀ x, 4 ≤ (H x).length) (data : Bytes) :
+    b58CheckDecode H btcAlphabet (b58CheckEncode H btcAlphabet data) = .ok data :=
+  b58Check_decode_encode H hH btcAlphabet btcAlphabet_nodup btcAlphabet_length data
+
+/-- Monero block Base58, every length (all last-block sizes). -/
+theorem xmr_base58_decode_encode (b : Bytes) : xmrDecode (xmrEncode b) = .ok b := xmr_decode_encode b
+
+/-- Base32 with padding, without padding, and with any duplicate-free 32-symbol custom alphabet
+that does not contain the padding character. -/
+theorem base32_roundtrip (b : Bytes) : base32Decode (base32Encode b none) none = .ok b :=
+  base32_decode_encode b
+theorem base32_nopad_roundtrip (b : Bytes) : base32Decode (base32EncodeNoPad b none) none = .ok b :=
+  base32_decode_encodeNoPad b
+theorem base32_custom_roundtrip (b : Bytes) (a : List Char) (ha : Base32AlphabetOk a) :
+    base32Decode (base32Encode b (some a)) (some a) = .ok b :=
+  base32_decode_encode_custom b a ha
+theorem base32_custom_nopad_roundtrip (b : Bytes) (a : List Char) (ha : Base32AlphabetOk a) :
+    base32Decode (base32EncodeNoPad b (some a)) (some a) = .ok b :=
+  base32_decode_encodeNoPad_custom b a ha
+
+/-- hex and the integer/byte helpers -/
+theorem hex_roundtrip (b : Bytes) : Bytes.ofHex (Bytes.toHex b) = some b := ofHex_toHex b
+theorem toBytes_fromBytes_be (b : Bytes) : toBytesBE (Bytes.toNatBE b) b.length = .ok b := toBytesBE_of_toNatBE b
+theorem toBytes_fromBytes_le (b : Bytes) : toBytesLE (Bytes.toNatLE b) b.length = .ok b := toBytesLE_of_toNatLE b
+theorem fromBytes_toBytes_be {v n : Nat} {b : Bytes} (h : toBytesBE v n = .ok b) : Bytes.toNatBE b = v ∧ b.length = n :=
+  toBytesBE_toNatBE h
+theorem toBytes_overflow_iff (v n : Nat) : toBytesBE v n = .error .overflow ↔ 256 ^ n ≤ v := toBytesBE_error_iff v n
+theorem binStr_roundtrip (v pad : Nat) : ofBinStr (toBinStr v pad) = v := ofBinStr_toBinStr v pad
+
+/-- SS58: every format 0..16383 except the reserved 46/47, every 32-byte payload. -/
+theorem ss58_roundtrip (H : Bytes → Bytes) (hH : ∀ x, 2 ≤ (H x).length) (data : Bytes) (fmt : Nat)
+    (hd : data.length = 32) (hf : fmt ≤ 16383) (h46 : fmt ≠ 46) (h47 : fmt ≠ 47) :
+    (ss58Encode H data fmt >>= ss58Decode H) = .ok (fmt, data) :=
+  ss58_decode_encode H hH data fmt hd hf h46 h47
+
+/-- SCALE compact integers against the specification decoder, whole range `[0, 2^536)`. -/
+theorem scale_compact_roundtrip {v : Nat} (h : v < 2 ^ 536) :
+    ∃ b, scaleCompact v = .ok b ∧ scaleCompactDecode b = some (v, b.length) := scaleCompact_roundtrip h
+theorem scale_compact_out_of_range {v : Nat} (h : 2 ^ 536 ≤ v) : scaleCompact v = .error .value := scaleCompact_error h
+theorem scale_uint_roundtrip {v n : Nat} (h : v < 256 ^ n) :
+    ∃ b, scaleUint v n = .ok b ∧ b.length = n ∧ Bytes.toNatLE b = v := scaleUint_roundtrip h
+
+/-- CBOR indefinite-length arrays of unsigned integers below 2^64 (non-empty: the library's decoder
+refuses the 2-byte encoding `9f ff` of the empty list, see `cbor_empty_not_roundtrip`). -/
+theorem cbor_indef_roundtrip {l : List Nat} (hne : l ≠ []) (h : ∀ n ∈ l, n < 2 ^ 64) :
+    (cborIndefEncode l >>= cborIndefDecode cborLoadsUint) = .ok (l.map .uint) := cborIndef_roundtrip hne h
+theorem cbor_empty_not_roundtrip : (cborIndefEncode [] >>= cborIndefDecode cborLoadsUint) = .error .value :=
+  cborIndef_empty
+
+/-- non-vacuity: the hypotheses are met by a concrete non-trivial input. -/
+example : b58Decode btcAlphabet (b58Encode btcAlphabet [0, 0, 1, 2, 255]) = .ok [0, 0, 1, 2, 255] := by
+  decide +kernel
+
 end BipVerif.Props.C11
